@@ -10,27 +10,24 @@ Set Warnings "-unused-intro-pattern".
 Lemma item_id_wit pn n : item_id pn n = wit_id pn n.
 Proof. reflexivity. Qed.
 
-Definition stmt_ok (genv : env) (penv : penv_t) (x : Ast.type_statement) : bool :=
-  match x with Ast.TSWorld _ _ items => includes_ok genv penv items | _ => true end.
-
 Lemma type_statement_sim pn pkgs penv s genv x s' :
-  flat (r_types s) -> Renv (r_types s) (r_root s) genv -> Rpk (r_types s) pkgs penv -> stmt_ok genv penv x = true ->
+  flat (r_types s) -> Renv (r_types s) (r_root s) genv -> Rpk (r_types s) pkgs penv ->
   type_statement pn pkgs s x = DOk s' ->
   aext (r_types s) (r_types s') /\
   exists n y sm, den_statement pn penv genv x = Some (n, sm) /\ bound n genv = false /\
                  r_root s' = (n, y) :: r_root s /\ r_defs s' = r_defs s ++ [(n, KType y)] /\
                  rel_item (r_types s') y sm.
 Proof.
-  intros Hf Hg Hp Hok H. unfold type_statement in H. dinv H as [[[n y] t1] [E1 H]].
+  intros Hf Hg Hp H. unfold type_statement in H. dinv H as [[[n y] t1] [E1 H]].
   destruct (mem n (r_exports s)); [discriminate|]. dinv H as [root1 [E2 H]]. apply register_ok in E2 as [Eh ->].
   injection H as <-. cbn [r_types r_root r_defs].
   assert (Hs : aext (r_types s) t1 /\ exists sm, den_statement pn penv genv x = Some (n, sm) /\ rel_item t1 y sm).
-  { destruct x as [docs i items|docs i items|d]; cbn [den_statement stmt_ok] in *.
+  { destruct x as [docs i items|docs i items|d]; cbn [den_statement] in *.
     - dinv E1 as [[j t0] [E0 E1]]. injection E1 as <- <- <-.
       destruct (interface_body_sim _ _ _ _ _ _ _ _ _ Hf Hg Hp E0) as [X1 [e [D1 [R1 _]]]]. split; [exact X1|].
       rewrite D1. cbn [option_map]. eexists. split; [reflexivity|]. rewrite <- item_id_wit. exact R1.
     - dinv E1 as [[j t0] [E0 E1]]. injection E1 as <- <- <-.
-      destruct (world_body_sim _ _ _ _ _ _ _ _ _ Hf Hg Hp Hok E0) as [X1 [wi [we [D1 R1]]]]. split; [exact X1|].
+      destruct (world_body_sim _ _ _ _ _ _ _ _ _ Hf Hg Hp E0) as [X1 [wi [we [D1 R1]]]]. split; [exact X1|].
       rewrite D1. cbn [option_map fst snd]. eexists. split; [reflexivity | exact R1].
     - destruct d as [docs id ms|docs id cs|docs id fs|docs id fl|docs id cs|docs id k]; [discriminate| | | | |];
         (dinv E1 as [[y0 t0] [E0 E1]]; injection E1 as <- <- <-;
@@ -39,83 +36,39 @@ Proof.
   destruct Hs as [X1 [sm [D1 R1]]]. split; [exact X1|]. exists n, y, sm. rewrite <- (R2_has _ _ _ n Hg). auto.
 Qed.
 
-Fixpoint stmts_ok (pn : Ast.package_name) (penv : penv_t) (genv : env) (l : list Ast.statement) : bool :=
-  match l with
-  | Ast.SType x :: rest =>
-    stmt_ok genv penv x &&
-    match den_statement pn penv genv x with
-    | Some (n, s) => stmts_ok pn penv ((n, s) :: genv) rest
-    | None => true
-    end
-  | _ => true
-  end.
-
 Lemma statements_go_sim pn pkgs penv : forall l s genv acc s',
   flat (r_types s) -> Renv (r_types s) (r_root s) genv -> Rpk (r_types s) pkgs penv -> Rexts (r_types s) (r_defs s) acc ->
-  stmts_ok pn penv genv l = true -> statements_go pn pkgs s l = DOk s' ->
+  statements_go pn pkgs s l = DOk s' ->
   aext (r_types s) (r_types s') /\
   exists defs genv', den_statements pn penv genv acc l = Some defs /\ Rexts (r_types s') (r_defs s') defs /\
                      Renv (r_types s') (r_root s') genv'.
 Proof.
-  induction l as [|st rest IH]; intros s genv acc s' Hf Hg Hp Ha Hok H.
+  induction l as [|st rest IH]; intros s genv acc s' Hf Hg Hp Ha H.
   - cbn in H. injection H as <-. split; [apply aext_refl|]. exists acc, genv. auto.
   - destruct st as [| x | |]; cbn [statements_go] in H; try discriminate. dinv H as [s1 [E1 H]].
-    cbn [stmts_ok] in Hok. apply andb_true_iff in Hok as [Hok1 Hok2].
-    destruct (type_statement_sim _ _ _ _ _ _ _ Hf Hg Hp Hok1 E1) as [X1 [n [y [sm [D1 [Hb [Hroot [Hdefs R1]]]]]]]].
-    rewrite D1 in Hok2.
+    destruct (type_statement_sim _ _ _ _ _ _ _ Hf Hg Hp E1) as [X1 [n [y [sm [D1 [Hb [Hroot [Hdefs R1]]]]]]]].
     assert (Hg1 : Renv (r_types s1) (r_root s1) ((n, sm) :: genv)).
     { rewrite Hroot. apply R2_cons; [exact R1 | eapply Renv_aext; eassumption]. }
     assert (Ha1 : Rexts (r_types s1) (r_defs s1) (acc ++ [(n, sem_tree sm)])).
     { rewrite Hdefs. apply R2_snoc; [eapply Rexts_aext; eassumption | now apply rel_item_uk]. }
-    destruct (IH _ _ _ _ (type_statement_flat _ _ _ _ _ Hf E1) Hg1 (Rpk_aext _ _ _ _ X1 Hp) Ha1 Hok2 H)
+    destruct (IH _ _ _ _ (type_statement_flat _ _ _ _ _ Hf E1) Hg1 (Rpk_aext _ _ _ _ X1 Hp) Ha1 H)
       as [X2 [defs [genv' [D2 [R2' G2]]]]].
     split; [eapply aext_trans; eassumption|]. exists defs, genv'. cbn [den_statements]. rewrite D1, Hb. auto.
 Qed.
 
-(** the side condition on a document: every [include ... with] of it satisfies [include_ok] (evaluated along the
-    denotation; it depends only on the document and on the descriptions of the external packages) *)
-Definition include_safe (ext : env) (d : Ast.document) : bool :=
-  let pn := Ast.pd_package (Ast.doc_directive d) in
-  stmts_ok pn (mkpenv (Ast.pn_name pn) ext) [] (Ast.doc_statements d).
-
 Lemma resolve_document_sim ext eext t0 d s :
-  flat t0 -> Renv t0 ext eext -> include_safe eext d = true -> resolve_document ext t0 d = DOk s ->
+  flat t0 -> Renv t0 ext eext -> resolve_document ext t0 d = DOk s ->
   aext t0 (r_types s) /\ exists defs, den_document eext d = Some defs /\ Rexts (r_types s) (r_defs s) defs.
 Proof.
-  intros Hf He Hok H. unfold resolve_document, den_document, include_safe in *. cbv zeta in *.
+  intros Hf He H. unfold resolve_document, den_document in *. cbv zeta in *.
   destruct (Ast.pd_targets (Ast.doc_directive d)); [discriminate|].
   pose proof (fun hf hg hp ha =>
                 statements_go_sim _ _ (mkpenv (Ast.pn_name (Ast.pd_package (Ast.doc_directive d))) eext) _ _ [] [] _
-                                  hf hg hp ha Hok H) as Hsim.
+                                  hf hg hp ha H) as Hsim.
   cbn [r_types r_root r_defs] in Hsim.
   destruct (Hsim Hf (R2_nil _) (conj eq_refl He) (R2_nil _)) as [X1 [defs [genv' [D1 [R1 _]]]]].
   split; [exact X1|]. exists defs. auto.
 Qed.
-
-(** ** A syntactic sufficient condition: no [with] list at all *)
-Definition no_with_item (it : Ast.world_item) : bool :=
-  match it with Ast.WIInclude _ _ (_ :: _) => false | _ => true end.
-Definition no_with_stmt (st : Ast.statement) : bool :=
-  match st with Ast.SType (Ast.TSWorld _ _ items) => forallb no_with_item items | _ => true end.
-Definition no_with (d : Ast.document) : bool := forallb no_with_stmt (Ast.doc_statements d).
-
-Lemma include_ok_nil genv penv r : include_ok genv penv r [] = true.
-Proof. unfold include_ok. destruct (world_ref_sem genv penv r) as [[]|]; reflexivity. Qed.
-Lemma includes_ok_no_with genv penv items : forallb no_with_item items = true -> includes_ok genv penv items = true.
-Proof.
-  induction items as [|it rest IH]; cbn [forallb includes_ok]; [reflexivity|]. intro H. apply andb_true_iff in H as [H1 H2].
-  destruct it as [u|d|docs p|docs p|docs r its]; auto. destruct its; [|discriminate]. now rewrite include_ok_nil, IH.
-Qed.
-Lemma stmts_ok_no_with pn penv : forall l genv, forallb no_with_stmt l = true -> stmts_ok pn penv genv l = true.
-Proof.
-  induction l as [|st rest IH]; intros genv H; [reflexivity|]. cbn [forallb] in H. apply andb_true_iff in H as [H1 H2].
-  destruct st as [| x | |]; try reflexivity. cbn [stmts_ok].
-  assert (Hs : stmt_ok genv penv x = true).
-  { destruct x; try reflexivity. cbn [stmt_ok no_with_stmt] in *. now apply includes_ok_no_with. }
-  rewrite Hs. cbn [andb]. destruct (den_statement pn penv genv x) as [[n s]|]; [now apply IH | reflexivity].
-Qed.
-Lemma no_with_safe ext d : no_with d = true -> include_safe ext d = true.
-Proof. intro H. unfold include_safe. cbv zeta. now apply stmts_ok_no_with. Qed.
 
 (** * A borrow in a result is rejected *)
 Lemma borrow_rejected cur t e ps y k res rname v :
@@ -213,40 +166,11 @@ Lemma use_type_split root pkgs l u l' :
   exists iface, use_source root pkgs (l_types l) (Ast.u_path u) = DOk iface /\ use_items iface l (Ast.u_items u) = DOk l'.
 Proof. unfold use_type. intro H. dinv H as [iface [E1 H]]. eauto. Qed.
 
-(** * The refutation of the unconditional include statement *)
-Lemma rb_related :
-  flat rb_types /\ Renv rb_types rb_root rb_genv /\ Rpk rb_types (mkpkgs [] []) (mkpenv [] []) /\ Rwst rb_w0 rb_wb0.
-Proof.
-  assert (Hk : uk rb_types (KFunc (mkid 0 0)) (XFunc rb_ft)) by (exists 2%nat; reflexivity).
-  assert (Hx : Rexts rb_types [(rb_f, KFunc (mkid 0 0))] [(rb_f, XFunc rb_ft)]) by (apply R2_cons; [exact Hk | apply R2_nil]).
-  split; [|split; [|split]].
-  - split; [intros x [] | intros x [<-|[]]; reflexivity].
-  - apply R2_cons; [|apply R2_nil].
-    apply (RI_world rb_types (mkid 0 0) (mkworld None [] [(rb_f, KFunc (mkid 0 0))] [(rb_f, KFunc (mkid 0 0))]));
-      [reflexivity | exact Hx | exact Hx].
-  - split; [reflexivity | apply R2_nil].
-  - split; [split|]; apply R2_nil.
-Qed.
-
-Lemma include_renames_both_refuted_full :
-  exists t root pkgs genv penv w wb r items w' wb',
-    flat (w_types w) /\ w_types w = t /\ Renv t root genv /\ Rpk t pkgs penv /\ Rwst w wb /\
-    world_include root pkgs w r items = DOk w' /\
-    den_include genv penv wb r items = Some wb' /\
-    ~ Rwst w' wb'.
-Proof.
-  destruct rb_related as [Hf [Hg [Hp Hw]]].
-  destruct include_renames_both_witness as [_ [[w' [E1 [Ki Ke]]] [wb' [E2 [Ki' Ke']]]]].
-  exists rb_types, rb_root, (mkpkgs [] []), rb_genv, (mkpenv [] []), rb_w0, rb_wb0,
-         (Ast.WRIdent (rb_ident (L"w"))), rb_items, w', wb'.
-  repeat (split; [assumption || reflexivity|]). intros [_ Hx]. apply R2_keys in Hx. rewrite Ke, Ke' in Hx. discriminate.
-Qed.
-
 (** the conclusion of [resolve_document_sim] with one common fuel: the unfolded definitions ARE the denotation *)
 Lemma resolve_document_trees ext eext t0 d s :
-  flat t0 -> Renv t0 ext eext -> include_safe eext d = true -> resolve_document ext t0 d = DOk s ->
+  flat t0 -> Renv t0 ext eext -> resolve_document ext t0 d = DOk s ->
   exists F defs, den_document eext d = Some defs /\ defs_trees F (resolve_document ext t0 d) = Some defs.
 Proof.
-  intros Hf He Hok H. destruct (resolve_document_sim _ _ _ _ _ Hf He Hok H) as [_ [defs [D R]]].
+  intros Hf He H. destruct (resolve_document_sim _ _ _ _ _ Hf He H) as [_ [defs [D R]]].
   destruct (Rexts_collect _ _ _ R) as [F HF]. exists F, defs. rewrite H. cbn [defs_trees]. auto.
 Qed.
